@@ -157,8 +157,10 @@ def run(ctx: Ctx) -> None:
         ctx.case((gi, mode, tuple(sel)), nontrivial=bool(got), sample={"mode": mode, "codes": sel, "diagnostics": len(got)} if rng.random() < 0.05 else None)
         ctx.count(mode)
         if got != want:
-            extra = [d for d in got if d not in want][:3]
-            missing = [d for d in want if d not in got][:3]
+            from collections import Counter
+            cg, cw = Counter(map(tuple, got)), Counter(map(tuple, want))
+            extra = [list(d) for d in (cg - cw).elements()][:3]          # multiset difference: a duplicate is an extra diagnostic
+            missing = [list(d) for d in (cw - cg).elements()][:3]
             involved = sorted({d[3] for d in extra + missing})
             key = "interference:" + (",".join(involved) if involved else "order")
             ctx.report(key, f"{mode} {sel[:4]}: {len(missing)} diagnostics lost, {len(extra)} added/changed (e.g. {(missing + extra)[0][1:4] if missing + extra else 'order only'})",
